@@ -27,6 +27,29 @@ class Skip(Exception):
     pass
 
 
+def _coord_types(f):
+    """the nesting structure and element types of every coordinate in the tree"""
+    def sig(c):
+        return tuple(sig(x) for x in c) if isinstance(c, (tuple, list)) else type(c).__name__ \
+            if not isinstance(c, (tuple, list)) else None
+
+    def tsig(c):
+        if isinstance(c, tuple):
+            return ("tuple",) + tuple(tsig(x) for x in c)
+        if isinstance(c, list):
+            return ("list",) + tuple(tsig(x) for x in c)
+        return type(c).__name__
+    out = []
+
+    def rec(g):
+        for c, p in zip(g.coords, g.payloads):
+            out.append(tsig(c))
+            if isinstance(p, Fiber):
+                rec(p)
+    rec(f)
+    return out
+
+
 class _RandomShim:
     """what fiber.py sees as the `random` module: a simulator-owned generator"""
 
@@ -147,6 +170,11 @@ class ConvSim(WorldBase):
             spec = self._spec(g, shape, 0)
             a = {"key": key, "kind": kind, "shape": shape, "spec": spec,
                  "name": g.choice(["", "A", "tensor-1", "Z z"]), "value": g.choice([0, 5, 2.5])}
+            if kind == "tensor" and depth >= 2 and g.random() < 0.25:
+                # tuple coordinates: the dictionary form is checked at build time; the YAML form is known finding F13
+                a["flatten"] = {"levels": g.randint(1, depth - 1), "style": g.choice(["tuple", "pair", "pair"])}
+                evs.append(["build", a])
+                continue
             evs.append(["build", a])
             pre = g.choice(["none", "none", "older", "older_longer"])
             path = f"{key}.yaml"
@@ -360,8 +388,23 @@ class ConvSim(WorldBase):
                 ids = ["M", "K", "N"][:len(a["shape"])]
                 t = Tensor.fromFiber(ids, f, shape=a["shape"], name=a["name"])
                 if a.get("flatten") and len(ids) >= 2:
-                    t = t.flattenRanks(depth=0, levels=1)       # tuple coordinates
+                    fl = a["flatten"] if isinstance(a["flatten"], dict) else {"levels": 1, "style": "tuple"}
+                    lv = min(fl.get("levels", 1), len(ids) - 1)
+                    t = t.flattenRanks(depth=0, levels=lv, coord_style=fl.get("style", "tuple"))   # tuple coordinates
+                    self.probe("built_with_tuple_coordinates")
                 self.objs[a["key"]] = ("tensor", t)
+        # (b) the dictionary form round-trips (piggy-back, pure): same coordinates (types included) and payloads
+        kind2, o = self.objs[a["key"]]
+        root = ob.root_of(o) if kind2 == "tensor" else o
+        if isinstance(root, Fiber):
+            try:
+                back = Fiber.dict2fiber(root.fiber2dict())
+            except Exception as e:
+                self.V("C13", "C13.dict", "build", f"dictionary round trip raised {type(e).__name__}: {str(e)[:60]}")
+                return {"kind": kind}
+            if repr(ob.enc_fiber(back)) != repr(ob.enc_fiber(root)) or _coord_types(back) != _coord_types(root):
+                self.V("C13", "C13.dict", "build",
+                       f"dict2fiber(fiber2dict(f)) differs from f: coordinates {root.coords[:3]} came back as {back.coords[:3]}")
         return {"kind": kind}
 
     def ev_dump(self, a):
